@@ -1036,37 +1036,54 @@ func streamCoils(seed uint64, thorough bool) {
 		}
 		coils := coilPattern(r, n, 3)
 		start := uint16(r.intn(65536 - n))
-		o := guard(func() V {
-			req, err := packet.NewWriteMultipleCoilsRequestTCP(1, start, coils)
-			if err != nil {
-				return L(I(3))
-			}
-			// device: decode the request data by the specification's layout into memory
-			mem := make([]bool, n)
-			for i := range mem {
-				mem[i] = req.Data[i/8]&(1<<(i%8)) != 0
-			}
-			// device: answer a read of [start, start+n) with the specification's packing
-			payload := make([]byte, (n+7)/8)
-			for i, b := range mem {
-				if b {
-					payload[i/8] |= 1 << (i % 8)
+		fr := n % 2 // both framings' constructors
+		if n >= 1960 || n <= 16 {
+			fr = r.intn(2)
+		}
+		for _, frm := range map[bool][]int{true: {0, 1}, false: {fr}}[n >= 1960 || n <= 16] {
+			fr := frm
+			o := guard(func() V {
+				var data []byte
+				if fr == 0 {
+					req, err := packet.NewWriteMultipleCoilsRequestTCP(1, start, coils)
+					if err != nil {
+						return L(I(3))
+					}
+					data = req.Data
+				} else {
+					req, err := packet.NewWriteMultipleCoilsRequestRTU(1, start, coils)
+					if err != nil {
+						return L(I(3))
+					}
+					data = req.Data
 				}
-			}
-			resp := packet.ReadCoilsResponse{UnitID: 1, CoilsByteLength: uint8(len(payload)), Data: payload}
-			got := make([]byte, n)
-			for i := range got {
-				v, err := resp.IsCoilSet(start, start+uint16(i))
-				switch {
-				case err != nil:
-					got[i] = 2
-				case v:
-					got[i] = 1
+				// device: decode the request data by the specification's layout into memory
+				mem := make([]bool, n)
+				for i := range mem {
+					mem[i] = data[i/8]&(1<<(i%8)) != 0
 				}
-			}
-			return B(got)
-		})
-		emit("coil_readback", L(B(boolBytes(coils)), I(int(start))), o)
+				// device: answer a read of [start, start+n) with the specification's packing
+				payload := make([]byte, (n+7)/8)
+				for i, b := range mem {
+					if b {
+						payload[i/8] |= 1 << (i % 8)
+					}
+				}
+				resp := packet.ReadCoilsResponse{UnitID: 1, CoilsByteLength: uint8(len(payload)), Data: payload}
+				got := make([]byte, n)
+				for i := range got {
+					v, err := resp.IsCoilSet(start, start+uint16(i))
+					switch {
+					case err != nil:
+						got[i] = 2
+					case v:
+						got[i] = 1
+					}
+				}
+				return B(got)
+			})
+			emit("coil_readback", L(B(boolBytes(coils)), I(int(start)), I(fr)), o)
+		}
 	}
 }
 
